@@ -266,6 +266,6 @@ def call_union_doc(rng: Rng, i: int, per_doc: int = 4) -> tuple[dict, list, list
     us = []
     for k in range(per_doc):
         idx = i * per_doc + k
-        us.append((call_union(rng.fork(f"u{k}"), idx), PLACES[(idx + i) % len(PLACES)]))
+        us.append((call_union(rng.fork(f"u{k}"), idx), PLACES[idx % len(PLACES)]))
     doc, insts, muts, feats = embed(us)
     return doc, insts, muts, feats, [u for u, _p in us]
